@@ -98,9 +98,10 @@ Definition init (d : string) : event := EvInit (pth d).
 Definition edge (d i r : string) : event := EvEdge (pth d) (pth i) (pth r).
 Definition main (d : string) : event := EvMain (pth d).
 
-(** (id, inside the side conditions according to the generator?, file mode?, context, entry import
-    path, implementation outcome, reference outcome) *)
-Definition run_case := (N * bool * bool * ctx * path * outcome * outcome)%type.
+(** (id, inside the side conditions according to the generator? ([None]: a constructed case whose
+    label is not cross-checked), file mode?, context, entry import path, implementation outcome,
+    reference outcome) *)
+Definition run_case := (N * option bool * bool * ctx * path * outcome * outcome)%type.
 Definition run_mis_y (cs : list run_case) : list N :=
   flat_map (fun x : run_case => let '(id, _, file, c, e, impl, _) := x in
     if outcome_eqb_y (if file then y_run_file c else y_run_path c e) impl then [] else [id]) cs.
@@ -109,4 +110,7 @@ Definition run_mis_y (cs : list run_case) : list N :=
 Definition run_mis_g (cs : list run_case) : list N :=
   flat_map (fun x : run_case => let '(id, inside, file, c, e, _, ref) := x in
     if outcome_eqb_g (if file then g_run_file c else g_run_path c e) ref
-       && Bool.eqb inside (if file then good_file c else good_prog c e) then [] else [id]) cs.
+       && match inside with
+          | Some b => Bool.eqb b (if file then good_file c else good_prog c e)
+          | None => true
+          end then [] else [id]) cs.
